@@ -1303,7 +1303,9 @@ impl Machine {
                 }
                 Instruction::JmpIfNeg(cond, offset) => {
                     let cond_v = self.get_stack(cond as i64);
-                    if Self::get_as::<f64>(cond_v) <= 0.0 {
+                    // the condition holds iff it is > 0 (a NaN condition takes the else
+                    // arm, as in the WASM backend and as && / || treat their operands)
+                    if !(Self::get_as::<f64>(cond_v) > 0.0) {
                         increment = offset;
                     }
                 }
